@@ -1163,6 +1163,8 @@ type Options struct {
 	Tasks     []string `json:"tasks"`
 	Final     string   `json:"final"`
 	Sweep     bool     `json:"sweep"`
+	Api       string   `json:"api"`
+	Park      int64    `json:"park"`
 }
 
 // Run dispatches on the replay mode ("" = plain conformance replay).
@@ -1176,6 +1178,12 @@ func Run(u *Universe, h History, dir, mode string, opt Options) Result {
 		return ReplayFault(u, h, dir, opt.FaultStep, opt.FaultCall)
 	case "fault-addresses":
 		return FaultAddresses(u, dir, opt.Seed)
+	case "readiso":
+		return ReplayReadIso(u, h, dir, opt.Api, opt.Park)
+	case "write-overlap":
+		return ReplayWriteOverlap(u, h, dir, opt.Park)
+	case "readiso-count":
+		return CountQueryCalls(u, h, dir, opt.Api)
 	case "txbuild":
 		return ReplayTxBuild(u, h, dir, opt.Seed, opt.Sweep)
 	case "stop-schedule":
